@@ -9,7 +9,7 @@ From Coq Require Import List NArith Bool.
 From SV Require Import Text.Str Text.Prog Text.Tokenizer.
 From SV Require Import KV.KvBase KV.KvLex KV.KvParse KV.KvSer KV.KvSym KV.KvParseProofs KV.KvRoundtrip KV.KvStrip
   KV.KvRefine KV.KvDelivery KV.KvExport KV.KvFlags KV.KvLoop KV.KvLoopRef KV.KvLoopProofs KV.KvLoopEquiv KV.KvLoopRoundtrip
-  KV.KvWriter KV.KvFlagProg KV.KvWProg KV.KvProperty KV.KvNoEsc KV.KvShift.
+  KV.KvWriter KV.KvFlagProg KV.KvWProg KV.KvProperty KV.KvNoEsc KV.KvShift KV.KvWHist.
 Import ListNotations.
 Open Scope N_scope.
 
@@ -421,3 +421,36 @@ Theorem c01_property_hypotheses_satisfiable :
   delivery_ok ref_serpaths = true /\ flagprog_ok ref_flagprog = true /\
   wprog_pure (ref_wprog (PEsc FName)) = true /\ wprog_text_ok (ref_sercfg (PEsc FName)) (ref_wprog (PEsc FName)) = true.
 Proof. exact whole_property_hypotheses_satisfiable. Qed.
+
+(** Round 5 — histories of calls.  [_serialise] read over the state that outlives a call ([gen_hprog]: writes, which can
+    raise; the child loop; guard / mark / unmark / any other use of a module-level or class-level mutable object).  A
+    program without state instructions gives back the marks it found and its outcome does not depend on them ... *)
+Theorem writer_outcome_independent_of_leftover_state : forall H idf is_root other, hprog_stateless H = true ->
+  forall fuel M b k, hexec H idf is_root other fuel M b k = with_marks M (hexec H idf is_root other fuel [] b k).
+Proof. exact hexec_stateless. Qed.
+
+(** ... so after ANY history of earlier calls (each on any tree, completed or aborted by the file raising at any write,
+    each starting from what the one before left behind) a call runs exactly as in a fresh process. *)
+Theorem writer_history_independent : forall H idf is_root other, hprog_stateless H = true ->
+  forall calls fuel b k,
+  hexec H idf is_root other fuel (marks_after H idf is_root other calls []) b k = hexec H idf is_root other fuel [] b k.
+Proof. exact history_independent. Qed.
+
+Theorem writer_history_hypothesis_satisfiable :
+  hprog_stateless ref_hprog = true /\ same_skeleton ref_hprog (ref_wprog (PEsc FName)) = true /\
+  h_ok (hexec ref_hprog name_id (fun _ => false) (fun _ M => M) 3%nat [] 10%nat hist_witness) = true.
+Proof. exact (conj ref_hprog_stateless (conj (ref_same_skeleton (PEsc FName)) ref_hprog_completes)). Qed.
+
+(** The nearby wrong shape (seeded fault c01_7: cycle detection through a module-level set of the blocks being written,
+    un-marked after the children but not in a finally clause): rejected; and the witness -- the call completes in a
+    fresh process; a call whose file raises at the second write leaves the mark [97] behind; after it the same valid
+    tree can not be written any more (the guard raises), and the mark stays. *)
+Theorem writer_marks_left_behind_refuted :
+  hprog_stateless marking_hprog = false /\
+  let run := hexec marking_hprog name_id (fun _ => false) (fun _ M => M) in
+  let M1 := marks_after marking_hprog name_id (fun _ => false) (fun _ M => M) [(3%nat, 1%nat, hist_witness)] [] in
+  h_ok (run 3%nat [] 10%nat hist_witness) = true
+  /\ M1 = [97]
+  /\ h_ok (run 3%nat M1 10%nat hist_witness) = false
+  /\ h_marks (run 3%nat M1 10%nat hist_witness) = [97].
+Proof. exact (conj marking_writer_rejected marking_writer_refuted). Qed.
